@@ -37,6 +37,7 @@ def tasks(tier, seed):
 def extra(led, tier, seed):
     from contracts import gemini_registry
     led.extend(gemini_registry.obligations())
+    led.extend(gemini_registry.frame_obligations())
     from contracts import gemini_large
     led.extend(gemini_large.obligations(seed, tier))
     led.assume("A1", "A2", "A3", "A4", "A8", "A9",
